@@ -163,7 +163,8 @@ def envelopes(draw, payloads=None, gpg=None, min_keys=1, max_keys=5, force_lower
 
 
 def to_envelope(case):
-    return {"signatures": {k: v for k, v, _ in case["sigs"]}, "signed": case["payload"]}
+    import copy
+    return {"signatures": {k: copy.deepcopy(v) for k, v, _ in case["sigs"]}, "signed": copy.deepcopy(case["payload"])}
 
 
 def labels(case):
